@@ -133,15 +133,33 @@ Definition ole (a b : option N) : Prop :=
   | Some x, Some y => x <= y
   end.
 
+Lemma insert_by_key_perm p l : Permutation (insert_by_key p l) (p :: l).
+Proof.
+  induction l as [|h t IH]; cbn [insert_by_key]; [apply Permutation_refl|].
+  destruct (N.leb (pkey p) (pkey h)); [apply Permutation_refl|].
+  eapply Permutation_trans; [apply perm_skip; exact IH|apply perm_swap].
+Qed.
+
+Lemma sort_by_key_perm l : Permutation (sort_by_key l) l.
+Proof.
+  induction l as [|h t IH]; cbn [sort_by_key fold_right]; [constructor|].
+  eapply Permutation_trans; [apply insert_by_key_perm|]. constructor. exact IH.
+Qed.
+
+(* [ps] is the snapshot's entry list in any order: a serialized snapshot is a bag
+   of entries (the D1 harness sorts it by key, a plain round trip keeps it) *)
 Section Restore.
   Variable c : cache.
+  Variable ps : list pentry.
   Variable now' : N.
   Variable ttl' tti' : option N.
   Hypothesis Hwf : wf c.
+  Hypothesis Hperm : Permutation ps (s_entries (snapshot c)).
 
   Let L := filter (live (c_tti c) (c_now c)) (concat (maps c)).
   Let conv (e : entry) : entry := entry_of_p now' tti' (pentry_of (c_now c) e).
-  Let c' := restore (snapshot c) now' ttl' tti'.
+  Let es := map (entry_of_p now' tti') ps.
+  Let c' := restore (mkSnap ps (c_cap c) (length (c_shs c))) now' ttl' tti'.
   Let n := length (c_shs c).
 
   Lemma conv_key e : ekey (conv e) = ekey e. Proof. reflexivity. Qed.
@@ -150,20 +168,33 @@ Section Restore.
   Lemma L_NoDup : NoDup (map ekey L).
   Proof. apply NoDup_map_filter. apply wf_NoDup_concat. apply Hwf. Qed.
 
-  Lemma es_NoDup : NoDup (map ekey (map conv L)).
-  Proof. rewrite map_map. rewrite (map_ext _ ekey) by (intros; apply conv_key). exact L_NoDup. Qed.
-
-  Lemma restore_maps :
-    maps c' = map (fun i => filter (fun e => Nat.eqb (shard_idx n (ekey e)) i) (map conv L)) (seq 0 n).
+  Lemma es_perm : Permutation es (map conv L).
   Proof.
-    unfold c', restore, maps, snapshot. cbn [c_shs s_entries s_shards]. rewrite !map_map. cbn [sh_map].
-    apply map_ext. intros i. fold L. fold (maps c) in *.
-    change (map (fun x => entry_of_p now' tti' (pentry_of (c_now c) x)) L) with (map conv L).
-    apply restore_shard_eq. exact es_NoDup.
+    unfold es. eapply Permutation_trans; [apply Permutation_map; exact Hperm|].
+    unfold snapshot. cbn [s_entries]. fold (maps c). fold L. rewrite map_map. apply Permutation_refl.
   Qed.
 
+  Lemma es_NoDup : NoDup (map ekey es).
+  Proof.
+    eapply Permutation_NoDup; [apply Permutation_sym; apply Permutation_map; exact es_perm|].
+    rewrite map_map. rewrite (map_ext _ ekey) by (intros; apply conv_key). exact L_NoDup.
+  Qed.
+
+  (* the restored shards: map, policy, empty buffer *)
+  Lemma restore_shs :
+    c_shs c' = map (fun i => mkSh (filter (fun e => Nat.eqb (shard_idx n (ekey e)) i) es)
+                                  (restore_policy (c_cap c) n i es) []) (seq 0 n).
+  Proof.
+    unfold c', restore. cbn [c_shs s_entries s_shards s_cap]. fold es. fold n.
+    apply map_ext. intros i. rewrite restore_shard_eq by exact es_NoDup. reflexivity.
+  Qed.
+
+  Lemma restore_maps :
+    maps c' = map (fun i => filter (fun e => Nat.eqb (shard_idx n (ekey e)) i) es) (seq 0 n).
+  Proof. unfold maps. rewrite restore_shs, map_map. reflexivity. Qed.
+
   Lemma restore_len : length (c_shs c') = n.
-  Proof. unfold c', restore, snapshot. cbn [c_shs s_shards]. rewrite map_length, seq_length. reflexivity. Qed.
+  Proof. rewrite restore_shs, map_length, seq_length. reflexivity. Qed.
 
   Lemma restore_wf : wf c'.
   Proof.
@@ -175,7 +206,7 @@ Section Restore.
     - intros e He. apply filter_In in He. destruct He as [_ He]. apply Nat.eqb_eq in He. exact He.
   Qed.
 
-  Lemma restore_concat_perm : Permutation (concat (maps c')) (map conv L).
+  Lemma restore_concat_es : Permutation (concat (maps c')) es.
   Proof.
     destruct Hwf as [Hn _]. fold n in Hn.
     apply NoDup_Permutation.
@@ -184,12 +215,15 @@ Section Restore.
     - intros e. rewrite restore_maps. split.
       + intros H. apply in_concat in H. destruct H as [sh [Hsh He]].
         apply in_map_iff in Hsh. destruct Hsh as [i [<- _]]. apply filter_In in He. apply He.
-      + intros H. apply in_concat. exists (filter (fun e0 => Nat.eqb (shard_idx n (ekey e0)) (shard_idx n (ekey e))) (map conv L)).
+      + intros H. apply in_concat. exists (filter (fun e0 => Nat.eqb (shard_idx n (ekey e0)) (shard_idx n (ekey e))) es).
         split.
         * apply in_map_iff. exists (shard_idx n (ekey e)). split; [reflexivity|].
           apply in_seq. pose proof (shard_idx_lt n (ekey e) Hn). lia.
         * apply filter_In. split; [exact H|apply Nat.eqb_refl].
   Qed.
+
+  Lemma restore_concat_perm : Permutation (concat (maps c')) (map conv L).
+  Proof. eapply Permutation_trans; [exact restore_concat_es|exact es_perm]. Qed.
 
   (* same key -> (value, cost) mapping as the live part of the original *)
   Theorem restore_mapping :
@@ -224,8 +258,9 @@ Section Restore.
     c_cost c' = sumN (map ecost (concat (maps c'))) /\ c_cost c' = sumN (map ecost L).
   Proof.
     assert (H2 : c_cost c' = sumN (map ecost L)).
-    { unfold c', restore, snapshot. cbn [c_cost s_entries]. fold (maps c). fold L.
-      rewrite map_map. reflexivity. }
+    { unfold c', restore. cbn [c_cost s_entries].
+      rewrite (sumN_perm _ _ (Permutation_map pcost Hperm)).
+      unfold snapshot. cbn [s_entries]. fold (maps c). fold L. rewrite map_map. reflexivity. }
     split; [|exact H2]. rewrite H2.
     rewrite (sumN_perm _ _ (Permutation_map ecost restore_concat_perm)).
     rewrite map_map. reflexivity.
@@ -252,11 +287,6 @@ Section Restore.
     destruct (ttl_left (c_now c) e) as [x|]; destruct tti' as [d|]; cbn [omin ole]; try exact I; lia.
   Qed.
 
-  Theorem restore_fresh_policy :
-    Forall (fun sh => sh_pol sh = [] /\ sh_pend sh = []) (c_shs c') /\ c_cap c' = c_cap c.
-  Proof.
-    split; [|reflexivity]. apply Forall_forall. intros sh H.
-    unfold c', restore in H. cbn [c_shs] in H. apply in_map_iff in H. destruct H as [i [<- _]].
-    split; reflexivity.
-  Qed.
+  Theorem restore_cap : c_cap c' = c_cap c.
+  Proof. reflexivity. Qed.
 End Restore.
